@@ -103,6 +103,8 @@ type Op struct {
 	Target       int   `json:"target,omitempty"`         // cancel: op whose ctx is cancelled; retryhandle: op whose error handle is used
 	Handler      int   `json:"handler,omitempty"`        // handle: handler number (0 = nil handler)
 	PayLen       int   `json:"paylen,omitempty"`         // publish: pad payload to this length
+	OnDial       int   `json:"on_dial,omitempty"`        // engine R: released when dial number OnDial completes (instead of at AtUs)
+	Repeat       int   `json:"repeat,omitempty"`         // probe: number of iterations
 }
 
 // Fault is one network / broker misbehaviour addressed by stable coordinates.
